@@ -120,7 +120,11 @@ func VH_C32_deliver(nc, nw, nameLen int) {
 		if short {
 			vAssert(vAnd(r.OK, r.Flags&3 == 2), "C32.short_name_uses_short_id")
 		} else {
-			vAssert(vAnd(r.OK, vAnd(r.Flags&3 == 1, r.TopicID == id)), "C32.predefined_name_uses_predefined_id")
+			// (a configuration may list one name under several IDs: any ID that denotes
+			// the name for this client is a correct choice)
+			back, known := w.x.h.predefinedTopics.GetTopicName(w.cid, r.TopicID)
+			_ = id
+			vAssert(vAnd(r.OK, vAnd(r.Flags&3 == 1, vAnd(known, back == name))), "C32.predefined_name_uses_predefined_id")
 		}
 	}
 	w.toClient()
